@@ -160,6 +160,8 @@ def rational_quadratic_spline(
         root = torch.clamp(root, 0, 1)
         # root = (- b + torch.sqrt(discriminant)) / (2 * a)
         outputs = root * input_bin_widths + input_cumwidths
+        # left-knot + width can exceed the right end of the box by one ulp
+        outputs = torch.clamp(outputs, left, right)
 
         theta_one_minus_theta = root * (1 - root)
         denominator = input_delta + (
@@ -186,6 +188,9 @@ def rational_quadratic_spline(
             * theta_one_minus_theta
         )
         outputs = input_cumheights + numerator / denominator
+        # Like the other splines, never leave [bottom, top] by a rounding error: an output of
+        # top + 1 ulp is rejected by whatever bounded transform comes next (e.g. a Logit).
+        outputs = torch.clamp(outputs, bottom, top)
 
         derivative_numerator = input_delta.pow(2) * (
             input_derivatives_plus_one * theta.pow(2)
